@@ -46,6 +46,13 @@ func makeDepGraph(program Program) depGraph {
 		s := rule.Head.Predicate
 		dep.initNode(s)
 		for _, premise := range rule.Premises {
+			// A mention inside a temporally annotated literal is a dependency like any other.
+			if tl, ok := premise.(ast.TemporalLiteral); ok {
+				premise = tl.Literal
+			}
+			if ta, ok := premise.(ast.TemporalAtom); ok {
+				premise = ta.Atom
+			}
 			switch p := premise.(type) {
 			case ast.Atom:
 				if _, ok := builtin.Predicates[p.Predicate]; ok {
